@@ -100,3 +100,235 @@ cover_graph = FunctionContract(
 )
 cover_graph.recursive = True
 CONTRACTS.append(cover_graph)
+
+
+# ------------------------------------------------------------------ fix_ptm: applying the identified modifications
+MNode, PTM, PIdx, Val = TKey('MNode'), TKey('PTM'), TKey('PIdx'), TKey('Val')
+Ident = TTuple(PTM, Match)
+MPair = TTuple(MNode, PIdx)
+AName = TKey('AName')                                      # attribute names (an abstract sort: z3 strings are slow)
+ANAMES = ['graph', 'PTM_atom', 'replace', 'atomname', '_old_atomname', 'modifications', 'modification']
+AttrMap = TMap(AName, Val)
+
+
+def world_fix(cx):
+    eng = cx.eng
+    from pyvc.values import IterV, COERCIONS
+    from pyvc.builtins import getitem, setitem, contains, _int
+    # the attribute names the code mentions are pairwise different constants of the abstract sort
+    consts = {n: z3.Const('an!' + n, AName.sort()) for n in ANAMES}
+    cx.assume(z3.Distinct(*consts.values()))
+
+    def name_const(e):
+        if not z3.is_string_value(e) or e.as_string() not in consts:
+            raise EngineError('attribute name %s is not one of the declared constants' % e)
+        return consts[e.as_string()]
+    COERCIONS[('Str', 'AName')] = name_const
+    pairs = cx.uf('pairs', [Match], TSeq(MPair))           # match.items(): (molecule atom, template atom)
+    pa = cx.uf('pa', [PTM, PIdx], TBool)                   # ptm.nodes[p]['PTM_atom']
+    pattr = cx.uf('pattr', [PTM, PIdx], AttrMap)           # ptm.nodes[p] as a dictionary
+    repl = cx.uf('repl', [PTM, PIdx], AttrMap)             # ptm.nodes[p]['replace']
+    subg = cx.uf('subgraph_of', [MNode], Val)
+    has_modification = cx.uf('has_modification', [MNode], TBool)   # 'modification' in node (sic)
+    m_ = z3.Const('m', Match.sort())
+    cx.assume(z3.ForAll([m_], TSeq(MPair).len(pairs(m_)) >= 0))
+    p_, i_ = z3.Const('p', PTM.sort()), z3.Const('i', PIdx.sort())
+    # the template dictionaries are well-formed dictionaries
+    cx.assume(z3.ForAll([p_, i_], AttrMap.inv(pattr(p_, i_))))
+    cx.assume(z3.ForAll([p_, i_], AttrMap.inv(repl(p_, i_))))
+    ATTR = cx.heap('ATTR', cx.box('ATTR', TMap(MNode, AttrMap)))
+    MODS = cx.heap('MODS', cx.box('MODS', TMap(MNode, TSet(PTM))))  # node['modifications'], as a set
+    PMATCH = cx.heap('PMATCH', cx.box('PMATCH', TMap(PTM, Match)))
+    eng.setattr_hooks[('PTM', 'match')] = lambda e, p, v: setitem(e, PMATCH, p, v)
+    eng.methods[('Match', 'items')] = lambda e, m: SV(TSeq(MPair), pairs(to_z3(m, Match)))
+
+    def ptm_nodes(e, p):
+        pe = to_z3(p, PTM)
+
+        def node(e2, idx):
+            ie = to_z3(idx, PIdx)
+            T = SV(AttrMap, pattr(pe, ie))
+            o = Obj('ptmnode')
+            o.__dict__['iter'] = T
+
+            def item(e3, k):
+                if k == 'PTM_atom':
+                    return wrap(TBool, pa(pe, ie))
+                if k == 'replace':
+                    e3.maybe_raise(AttrMap.has(T.e, consts['replace']), 'KeyError')
+                    return SV(AttrMap, repl(pe, ie))
+                return getitem(e3, T, k)
+            o.attrs['__getitem__'] = Builtin(item, 'ptm_node[]')
+            o.attrs['__contains__'] = Builtin(lambda e3, k: contains(e3, T, k), 'in ptm_node')
+            return o
+        return Obj('NodeView', __getitem__=Builtin(node, 'ptm.nodes[]'))
+    eng.attr_hooks[('PTM', 'nodes')] = ptm_nodes
+
+    def mol_node(e, n):
+        ne = to_z3(n, MNode)
+        o = Obj('molnode')
+        o.__dict__['node'] = ne
+        mods = Obj('modlist')
+        mods.__dict__['node'] = ne
+        mods.attrs['__contains__'] = Builtin(lambda e2, p: contains(e2, getitem(e2, MODS, SV(MNode, ne)), p), 'in modifications')
+
+        def append(e2, p):
+            cur = to_z3(getitem(e2, MODS, SV(MNode, ne)), TSet(PTM))
+            setitem(e2, MODS, SV(MNode, ne), SV(TSet(PTM), z3.Store(cur, to_z3(p, PTM), True)))
+        mods.attrs['append'] = Builtin(append, 'modifications.append')
+
+        def get(e2, k, d=None):
+            if k == 'modifications':
+                return mods
+            if d is None:
+                cur = to_z3(getitem(e2, ATTR, SV(MNode, ne)), AttrMap)
+                ke = to_z3(k, AName)
+                return SV(TOpt(Val), z3.If(AttrMap.has(cur, ke), TOpt(Val).some(AttrMap.at(cur, ke)), TOpt(Val).none()))
+            raise EngineError('node.get(%r, %r)' % (k, d))
+
+        def item(e2, k):
+            if k == 'modifications':
+                return mods
+            return getitem(e2, getitem(e2, ATTR, SV(MNode, ne)), k)
+
+        def setit(e2, k, v):
+            if k == 'modifications':
+                if v is not mods:
+                    raise EngineError("node['modifications'] = another list")
+                return
+            cur = to_z3(getitem(e2, ATTR, SV(MNode, ne)), AttrMap)
+            setitem(e2, ATTR, SV(MNode, ne), SV(AttrMap, AttrMap.insert(cur, to_z3(k, AName), to_z3(v, Val))))
+        o.attrs['get'] = Builtin(get, 'node.get')
+        o.attrs['__getitem__'] = Builtin(item, 'node[]')
+        o.attrs['__setitem__'] = Builtin(setit, 'node[]=')
+        o.attrs['__contains__'] = Builtin(lambda e2, k: wrap(TBool, has_modification(ne)) if k == 'modification' else
+                                          contains(e2, getitem(e2, ATTR, SV(MNode, ne)), k), 'in node')
+        return o
+    molecule = Obj('Molecule', nodes=Obj('NodeView', __getitem__=Builtin(mol_node, 'molecule.nodes[]')))
+    molecule.attrs['subgraph'] = Builtin(lambda e, lst: Obj('subgraph', copy=Builtin(
+        lambda e2: SV(Val, subg(to_z3(lst[0] if isinstance(lst, (list, tuple)) else getitem(e2, lst, 0), MNode))), 'copy')), 'subgraph')
+    log = Obj('LOGGER')
+    for n in ('debug', 'info', 'warning'):
+        log.attrs[n] = Builtin(lambda e, *a, **k: None, n)
+    cx.spec_env['LOGGER'] = log
+    cx.spec_env['format_atom_string'] = Builtin(lambda e, n: 'atom', 'format_atom_string')
+    return molecule
+
+
+def setup_label(cx):
+    molecule = world_fix(cx)
+    ident = cx.val('identified', TSeq(Ident))
+    return dict(molecule=molecule, identified=ident, n_idxs=cx.val('n_idxs', TSet(MNode)))
+
+
+LABELLED = ("forall(lambda j, n: implies(0 <= j and j < {J} and n in n_idxs, identified[j][0] in MODS[n]), TInt, MNode)")
+LAB_FRAME = ["forall(lambda n, p: implies(p in old(MODS)[n], p in MODS[n]), MNode, PTM)",
+             "forall(lambda n, p: implies(p in MODS[n] and not (p in old(MODS)[n]), n in n_idxs and "
+             "   exists(lambda j: 0 <= j and j < {J} and identified[j][0] == p)), MNode, PTM)",
+             "forall(lambda n: (n in MODS) == (n in old(MODS)), MNode)"]
+label_all = FunctionContract(
+    F, 'fix_ptm', 'C14', short='fix_ptm[labelling]', setup=setup_label,
+    spec_env=dict(MNode=MNode, PTM=PTM, PIdx=PIdx, Val=Val, AName=AName),
+    region=dict(within=["for resids, res_ptms in itertools.groupby(ptm_atoms, key_func):"], start="for ptm, match in identified:"),
+    requires=["forall(lambda n: implies(n in n_idxs, n in MODS and n in ATTR), MNode)",
+              "forall(lambda j, q: implies(0 <= j and j < len(identified) and 0 <= q and q < len(pairs(identified[j][1])), "
+              "   pairs(identified[j][1])[q][0] in ATTR and 'atomname' in ATTR[pairs(identified[j][1])[q][0]]))"],
+    ensures=[
+        # every atom of the touched residues is labelled with every identified modification ...
+        LABELLED.format(J='len(identified)'),
+        # ... labels are only added, only to those atoms, and only identified modifications
+        LAB_FRAME[0], LAB_FRAME[1].format(J='len(identified)'), LAB_FRAME[2],
+        # each modification remembers its own placement
+        "forall(lambda j: implies(0 <= j and j < len(identified) and forall(lambda k: implies(j < k and k < len(identified), "
+        "   identified[k][0] != identified[j][0])), PMATCH[identified[j][0]] == identified[j][1]))",
+    ],
+    modifies=['MODS', 'ATTR', 'PMATCH'],
+    loops={
+        'L1': LoopSpec(inv=[LABELLED.format(J='_i'), LAB_FRAME[0], LAB_FRAME[1].format(J='_i'), LAB_FRAME[2],
+                            "forall(lambda j: implies(0 <= j and j < _i and forall(lambda k: implies(j < k and k < _i, "
+                            "   identified[k][0] != identified[j][0])), PMATCH[identified[j][0]] == identified[j][1]))",
+                            "forall(lambda n: implies(n in old(ATTR), n in ATTR and implies('atomname' in old(ATTR)[n], 'atomname' in ATTR[n])), MNode)"],
+                       modifies=['MODS', 'ATTR', 'PMATCH'], ghost_pre="g_M = dict(MODS)", locals=dict(g_M=TMap(MNode, TSet(PTM)))),
+        'L1.1': LoopSpec(inv=["forall(lambda n: implies(n in old(ATTR), n in ATTR and implies('atomname' in old(ATTR)[n], 'atomname' in ATTR[n])), MNode)"],
+                         modifies=['ATTR']),
+        'L1.1.1': LoopSpec(inv=["forall(lambda n: implies(n in old(ATTR), n in ATTR and implies('atomname' in old(ATTR)[n], 'atomname' in ATTR[n])), MNode)"],
+                           modifies=['ATTR']),
+        'L1.1.2': LoopSpec(inv=["forall(lambda n: implies(n in old(ATTR), n in ATTR and implies('atomname' in old(ATTR)[n], 'atomname' in ATTR[n])), MNode)"],
+                           modifies=['ATTR']),
+        'L1.2': LoopSpec(inv=["forall(lambda q: implies(0 <= q and q < _i, ptm in MODS[_itL1_2(q)]))",
+                              "forall(lambda n, p: implies(p in g_M[n], p in MODS[n]), MNode, PTM)",
+                              "forall(lambda n, p: implies(p in MODS[n] and not (p in g_M[n]), n in n_idxs and p == ptm), MNode, PTM)",
+                              "forall(lambda n: (n in MODS) == (n in g_M), MNode)"],
+                         modifies=['MODS']),
+    },
+    canary=[("node['modifications'].append(ptm)", "pass"),
+            ("for n_idx in n_idxs:\n                node = molecule.nodes[n_idx]", "for n_idx in list(n_idxs)[:1]:\n                node = molecule.nodes[n_idx]")],
+)
+CONTRACTS.append(label_all)
+
+
+# ------------------------------------------------------------------ fix_ptm: what one placed template atom does to its atom
+def setup_transfer(cx):
+    molecule = world_fix(cx)
+    ptm, mol_idx, ptm_idx = cx.val('ptm', PTM), cx.val('mol_idx', MNode), cx.val('ptm_idx', PIdx)
+    return dict(molecule=molecule, ptm=ptm, mol_idx=mol_idx, ptm_idx=ptm_idx)
+
+
+SPEC_TR = {
+    'T': "lambda: pattr(ptm, ptm_idx)",
+    'R': "lambda: repl(ptm, ptm_idx)",
+    'isptm': "lambda: pa(ptm, ptm_idx)",
+    'hasR': "lambda: 'replace' in T()",
+    'meta': "lambda a: a == 'PTM_atom' or a == 'replace'",
+    # attributes the replacement step writes: the listed ones, and '_old_atomname' when the atom name is replaced
+    'replaced': "lambda a: hasR() and (a in R() or (a == '_old_atomname' and 'atomname' in R()))",
+    'transferred': "lambda a: isptm() and a in T() and not meta(a)",
+    'same': "lambda A, B, a: A[mol_idx][a] == B[mol_idx][a] and (a in A[mol_idx]) == (a in B[mol_idx])",
+}
+OTHERS = "forall(lambda n: implies(n != mol_idx, (n in ATTR) == (n in {O}) and ATTR[n] == {O}[n]), MNode)"
+transfer_one = FunctionContract(
+    F, 'fix_ptm', 'C14', short='fix_ptm[one placed atom]', setup=setup_transfer, spec_defs=SPEC_TR,
+    spec_env=dict(MNode=MNode, PTM=PTM, PIdx=PIdx, Val=Val, AName=AName),
+    region=dict(within=["for resids, res_ptms in itertools.groupby(ptm_atoms, key_func):", "for ptm, match in identified:",
+                        "for mol_idx, ptm_idx in match.items():"], start="ptm_node = ptm.nodes[ptm_idx]"),
+    locals=dict(g_mid=TMap(MNode, AttrMap)),
+    requires=["mol_idx in ATTR and 'atomname' in ATTR[mol_idx]"],
+    ghost_at={'entry': "g_mid = dict(ATTR)", 'after:L1': "g_mid = dict(ATTR)"},
+    ensures=[
+        # an unrecognised atom takes over the template atom's attributes (its canonical name among them) ...
+        "forall(lambda a: implies(transferred(a) and not replaced(a), a in ATTR[mol_idx] and ATTR[mol_idx][a] == T()[a]), AName)",
+        "implies(isptm() and not ('graph' in T()) and not replaced('graph'), ATTR[mol_idx]['graph'] == subgraph_of(mol_idx))",
+        # ... the template atom's attribute replacements take effect (the old atom name is kept as '_old_atomname') ...
+        "implies(hasR(), forall(lambda a: implies(a in R() and not (a == '_old_atomname' and 'atomname' in R()), "
+        "   a in ATTR[mol_idx] and ATTR[mol_idx][a] == R()[a]), AName))",
+        "implies(hasR() and 'atomname' in R() and not ('_old_atomname' in R()), '_old_atomname' in ATTR[mol_idx] and "
+        "   ATTR[mol_idx]['_old_atomname'] == (T()['atomname'] if transferred('atomname') else old(ATTR)[mol_idx]['atomname']))",
+        # ... and nothing else changes: not on this atom, not on any other
+        "forall(lambda a: implies(not transferred(a) and not replaced(a) and not (isptm() and a == 'graph'), same(ATTR, old(ATTR), a)), AName)",
+        OTHERS.format(O='old(ATTR)'),
+        "MODS == old(MODS)",
+    ],
+    modifies=['ATTR'],
+    loops={
+        'L1': LoopSpec(
+            inv=["forall(lambda j: implies(0 <= j and j < _i and not meta(keyat(T(), j)), keyat(T(), j) in ATTR[mol_idx] and "
+                 "   ATTR[mol_idx][keyat(T(), j)] == T()[keyat(T(), j)]))",
+                 "forall(lambda a: implies((not (a in T()) or posof(T(), a) >= _i or meta(a)) and a != 'graph', same(ATTR, old(ATTR), a)), AName)",
+                 "implies(not ('graph' in T()) or posof(T(), 'graph') >= _i, ATTR[mol_idx]['graph'] == subgraph_of(mol_idx))",
+                 OTHERS.format(O='old(ATTR)'), "mol_idx in ATTR and 'atomname' in ATTR[mol_idx]"],
+            modifies=['ATTR']),
+        'L2': LoopSpec(
+            inv=["forall(lambda j: implies(0 <= j and j < _i and not (keyat(R(), j) == '_old_atomname' and 'atomname' in R()), "
+                 "   keyat(R(), j) in ATTR[mol_idx] and ATTR[mol_idx][keyat(R(), j)] == R()[keyat(R(), j)]))",
+                 "forall(lambda a: implies((not (a in R()) or posof(R(), a) >= _i) and "
+                 "   not (a == '_old_atomname' and 'atomname' in R() and posof(R(), 'atomname') < _i), same(ATTR, g_mid, a)), AName)",
+                 "implies('atomname' in R() and posof(R(), 'atomname') < _i and not ('_old_atomname' in R()), "
+                 "   '_old_atomname' in ATTR[mol_idx] and ATTR[mol_idx]['_old_atomname'] == g_mid[mol_idx]['atomname'])",
+                 OTHERS.format(O='g_mid'), "mol_idx in ATTR and 'atomname' in ATTR[mol_idx]"],
+            modifies=['ATTR']),
+    },
+    canary=[("if attr not in ('PTM_atom', 'replace'):", "if attr not in ('PTM_atom', 'replace', 'atomname'):"),
+            ("mol_node[attr_name] = val", "pass"),
+            ("mol_node['_old_atomname'] = mol_node['atomname']", "mol_node['_old_atomname'] = val")],
+)
+CONTRACTS.append(transfer_one)
